@@ -104,6 +104,13 @@ func genC13(r *Rand, tier string, ord int) *Trial {
 		c = genCmdCase(r, "samvariants", caseSize{})
 		c.Opts.Aggregate = false
 		c.Opts.AppendSNP = r.P(0.4)
+		if c.Opts.RefFromFile && r.P(0.12) {
+			// the reference itself was left in the mapped file: a read group called like the --reference record
+			// (it is no query sequence: neither mode reports or counts it)
+			if strings.HasPrefix(c.Files["ref"], ">ref\n") && strings.Contains(c.Files["sam"], "\nq2\t") {
+				c.Files["sam"] = strings.ReplaceAll(c.Files["sam"], "\nq1\t", "\nref\t")
+			}
+		}
 	case "variants-dupfeat":
 		// the same printed mutation arising in either copy of a repeated coding segment (two features, one name)
 		ref, an, all := genDupFeature(r, r.Range(2, 9))
